@@ -198,8 +198,76 @@ def random_scenarios(c, n, tr):
                 d = max(0, d)
                 s.append(dict(op='tick', d=d))
                 t += d
+        if rng.random() < 0.4:
+            s = with_reloads(rng, s, rules)
         scns.append(s)
     return scns, tr
+
+
+def reload_list(rng, rules, per):
+    """a new rule list derived from the one in force: thresholds changed, a rule split in two (same statistic parameters),
+    rules dropped / added / reordered.  No two rules of the new list are identical; per > 0: only that resource changes."""
+    def key(r):
+        return (r['res'], r['num'] * 1000 // r['den'], r['I'], r['ref'])
+    mine = [dict(r) for r in rules if per in (0, r['res'])]
+    rest = [dict(r) for r in rules if per not in (0, r['res'])]
+    for _ in range(rng.choice([1, 1, 2, 3])):
+        kind = rng.choice(['split', 'split', 'change', 'change', 'drop', 'add', 'reorder', 'same'])
+        if kind == 'split' and mine:
+            j = rng.randrange(len(mine))
+            a, b = dict(mine[j]), dict(mine[j])
+            (a['num'], a['den']), (b['num'], b['den']) = rng.sample(THRESHOLDS, 2)
+            mine[j:j + 1] = [a, b]
+        elif kind == 'change' and mine:
+            r = rng.choice(mine)
+            r['num'], r['den'] = rng.choice(THRESHOLDS)
+        elif kind == 'drop' and len(mine) > 1:
+            mine.pop(rng.randrange(len(mine)))
+        elif kind == 'add':
+            num, den = rng.choice(THRESHOLDS)
+            iv = rng.choice([r['I'] for r in rules] + INTERVALS)
+            mine.insert(rng.randint(0, len(mine)), mkrule(per or rng.choice([1, 1, 2]), num, den, iv, 0, 1))
+        elif kind == 'reorder':
+            rng.shuffle(mine)
+    out, seen = [], set()
+    for r in mine + rest:
+        if key(r) not in seen:
+            seen.add(key(r))
+            out.append(r)
+    return out
+
+
+def with_reloads(rng, s, rules):
+    """insert one or two reloads (always one clock tick after the previous operation) into a random history"""
+    at = sorted(rng.sample(range(2, len(s)), min(len(s) - 2, rng.choice([1, 1, 2]))))
+    out, cur = [], rules
+    for i, o in enumerate(s):
+        if i in at:
+            per = rng.choice([0, 0, 1])
+            nxt = reload_list(rng, cur, per)
+            if nxt:
+                out.append(dict(op='tick', d=rng.choice([1, 1, 2, 250, 499, 1000])))
+                out.append(dict(op='reload', per=per, rules=nxt))
+                cur = nxt
+        out.append(o)
+    return out
+
+
+def reload_directed(tr):
+    """reloads whose new rules all keep the statistic parameters of ONE old rule with a standalone / reused window"""
+    out = []
+    for iv in (3000, 700, 250, 20000, 2000, 0):
+        for per in (0, 1):
+            tr += 1
+            old = [mkrule(1, 4, 1, iv, 0, 1)]
+            new = [mkrule(1, 6, 1, iv, 0, 1), mkrule(1, 8, 1, iv, 0, 1)]
+            s = [dict(op='new', tr=tr, t=1, unit=1, nres=2, rules=old)]
+            s += [dict(op='req', res=1, b=1)] * 3 + [dict(op='tick', d=1), dict(op='reload', per=per, rules=new)]
+            s += [dict(op='req', res=1, b=1)] * 5 + [dict(op='tick', d=max(iv, 1000) * 2 + 1)] + [dict(op='req', res=1, b=1)] * 8
+            s += [dict(op='tick', d=1), dict(op='reload', per=per, rules=[new[1], mkrule(1, 3, 1, iv, 0, 1), mkrule(1, 5, 1, iv, 0, 1)])]
+            s += [dict(op='req', res=1, b=1)] * 6 + [dict(op='tick', d=max(iv, 1000) * 2 + 1)] + [dict(op='req', res=1, b=2)] * 4
+            out.append(s)
+    return out, tr
 
 
 def path_scenarios(c, thorough, tr):
@@ -331,10 +399,10 @@ def gate_selftest(c, tp):
 
 
 def assoc_standalone_rules(scn):
-    """1-based indices of associated rules whose interval forces a standalone window"""
-    new = scn[0]
-    u = new.get('unit', 1) or 1
-    return [i + 1 for i, r in enumerate(new['rules']) if r['ref'] not in (0, r['res']) and standalone(r['I'] * u)]
+    """does the scenario load (at the start or by a reload) an associated rule whose interval forces a standalone window?"""
+    u = scn[0].get('unit', 1) or 1
+    return any(r['ref'] not in (0, r['res']) and standalone(r['I'] * u)
+               for o in scn if o['op'] in ('new', 'reload') for r in o['rules'])
 
 
 def classify(c, drv, scns):
@@ -348,12 +416,12 @@ def classify(c, drv, scns):
     tp = os.path.join(c.scratch, 'classify.trace.ndjson')
     write_ndjson(sp, [o for s in cand for o in s])
     c.run([drv, sp, tp], timeout=600)
-    idx = {s[0]['tr']: assoc_standalone_rules(s) for s in cand}
     lines = read_ndjson(tp)
     for e in lines:
-        if e['op'] == 'new':
-            for i in idx[e['tr']]:
-                e['rules'][i - 1]['ref'] = 0
+        if e['op'] in ('new', 'reload'):        # (the trace carries effective intervals in ms)
+            for r in e['rules']:
+                if r['ref'] not in (0, r['res']) and standalone(r['I']):
+                    r['ref'] = 0
     vp = os.path.join(c.scratch, 'classify.variant.ndjson')
     write_ndjson(vp, lines)
     mism, _, _, _ = validate_file(c, vp, 'classify')
@@ -426,6 +494,8 @@ def check(c, tier, replay):
     tr = 0
     tl, cover, tr = tlc_scenarios(c, thorough, tr)
     rs, tr = random_scenarios(c, 500 if not thorough else 6000, tr)
+    rd, tr = reload_directed(tr)
+    rs = rd + rs
     ps, tr = path_scenarios(c, thorough, tr)
     seen = set()
     for tag, group in (('tlc', tl), ('random', rs), ('gated', ps)):
